@@ -1,4 +1,6 @@
 import ClusterVerif.Lemmas.C14
+import ClusterVerif.Model.C14Source
+import ClusterVerif.Gen.C14
 
 /-!
 # C14 — state export/import, snapshots, backups and the peerstore file round-trip
@@ -362,5 +364,70 @@ theorem rotClauses_iff {β : Type} [DecidableEq β] (keep m : Nat) (s : β) (b a
       by_cases hk : i < keep
       · exact Or.inl hk
       · exact Or.inr (h4 i hi (by omega))
+
+/-! ### The anchored functions still read as the model was transcribed (regenerated from /repo on every run) -/
+
+theorem gen_source_Dsstate_f_DefaultHandle : Gen.Dsstate.f_DefaultHandle = Expected.Dsstate.f_DefaultHandle := rfl
+theorem gen_source_Dsstate_f_New : Gen.Dsstate.f_New = Expected.Dsstate.f_New := rfl
+theorem gen_source_Dsstate_f_State_Add : Gen.Dsstate.f_State_Add = Expected.Dsstate.f_State_Add := rfl
+theorem gen_source_Dsstate_f_State_Rm : Gen.Dsstate.f_State_Rm = Expected.Dsstate.f_State_Rm := rfl
+theorem gen_source_Dsstate_f_State_Get : Gen.Dsstate.f_State_Get = Expected.Dsstate.f_State_Get := rfl
+theorem gen_source_Dsstate_f_State_Has : Gen.Dsstate.f_State_Has = Expected.Dsstate.f_State_Has := rfl
+theorem gen_source_Dsstate_f_State_List : Gen.Dsstate.f_State_List = Expected.Dsstate.f_State_List := rfl
+theorem gen_source_Dsstate_f_State_Migrate : Gen.Dsstate.f_State_Migrate = Expected.Dsstate.f_State_Migrate := rfl
+theorem gen_source_Dsstate_f_State_Marshal : Gen.Dsstate.f_State_Marshal = Expected.Dsstate.f_State_Marshal := rfl
+theorem gen_source_Dsstate_f_State_Unmarshal : Gen.Dsstate.f_State_Unmarshal = Expected.Dsstate.f_State_Unmarshal := rfl
+theorem gen_source_Dsstate_f_cidToDsKey : Gen.Dsstate.f_cidToDsKey = Expected.Dsstate.f_cidToDsKey := rfl
+theorem gen_source_Dsstate_f_dsKeyToCid : Gen.Dsstate.f_dsKeyToCid = Expected.Dsstate.f_dsKeyToCid := rfl
+theorem gen_source_Dsstate_f_State_key : Gen.Dsstate.f_State_key = Expected.Dsstate.f_State_key := rfl
+theorem gen_source_Dsstate_f_State_unkey : Gen.Dsstate.f_State_unkey = Expected.Dsstate.f_State_unkey := rfl
+theorem gen_source_Dsstate_f_State_serializePin : Gen.Dsstate.f_State_serializePin = Expected.Dsstate.f_State_serializePin := rfl
+theorem gen_source_Dsstate_f_State_deserializePin : Gen.Dsstate.f_State_deserializePin = Expected.Dsstate.f_State_deserializePin := rfl
+theorem gen_source_Dsstate_f_NewBatching : Gen.Dsstate.f_NewBatching = Expected.Dsstate.f_NewBatching := rfl
+theorem gen_source_Dsstate_f_BatchingState_Commit : Gen.Dsstate.f_BatchingState_Commit = Expected.Dsstate.f_BatchingState_Commit := rfl
+theorem gen_source_DataHelper_f_newDataBackupHelper : Gen.DataHelper.f_newDataBackupHelper = Expected.DataHelper.f_newDataBackupHelper := rfl
+theorem gen_source_DataHelper_f_dataBackupHelper_makeName : Gen.DataHelper.f_dataBackupHelper_makeName = Expected.DataHelper.f_dataBackupHelper_makeName := rfl
+theorem gen_source_DataHelper_f_dataBackupHelper_listBackups : Gen.DataHelper.f_dataBackupHelper_listBackups = Expected.DataHelper.f_dataBackupHelper_listBackups := rfl
+theorem gen_source_DataHelper_f_dataBackupHelper_makeBackup : Gen.DataHelper.f_dataBackupHelper_makeBackup = Expected.DataHelper.f_dataBackupHelper_makeBackup := rfl
+theorem gen_source_Raft_f_SnapshotSave : Gen.Raft.f_SnapshotSave = Expected.Raft.f_SnapshotSave := rfl
+theorem gen_source_Raft_f_latestSnapshot : Gen.Raft.f_latestSnapshot = Expected.Raft.f_latestSnapshot := rfl
+theorem gen_source_Raft_f_LastStateRaw : Gen.Raft.f_LastStateRaw = Expected.Raft.f_LastStateRaw := rfl
+theorem gen_source_Raft_f_CleanupRaft : Gen.Raft.f_CleanupRaft = Expected.Raft.f_CleanupRaft := rfl
+theorem gen_source_Raft_f_raftWrapper_Clean : Gen.Raft.f_raftWrapper_Clean = Expected.Raft.f_raftWrapper_Clean := rfl
+theorem gen_source_Raft_f_OfflineState : Gen.Raft.f_OfflineState = Expected.Raft.f_OfflineState := rfl
+theorem gen_source_Pstoremgr_f_New : Gen.Pstoremgr.f_New = Expected.Pstoremgr.f_New := rfl
+theorem gen_source_Pstoremgr_f_Manager_ImportPeer : Gen.Pstoremgr.f_Manager_ImportPeer = Expected.Pstoremgr.f_Manager_ImportPeer := rfl
+theorem gen_source_Pstoremgr_f_Manager_RmPeer : Gen.Pstoremgr.f_Manager_RmPeer = Expected.Pstoremgr.f_Manager_RmPeer := rfl
+theorem gen_source_Pstoremgr_f_Manager_filteredPeerAddrs : Gen.Pstoremgr.f_Manager_filteredPeerAddrs = Expected.Pstoremgr.f_Manager_filteredPeerAddrs := rfl
+theorem gen_source_Pstoremgr_f_Manager_PeerInfos : Gen.Pstoremgr.f_Manager_PeerInfos = Expected.Pstoremgr.f_Manager_PeerInfos := rfl
+theorem gen_source_Pstoremgr_f_Manager_ImportPeers : Gen.Pstoremgr.f_Manager_ImportPeers = Expected.Pstoremgr.f_Manager_ImportPeers := rfl
+theorem gen_source_Pstoremgr_f_Manager_ImportPeersFromPeerstore : Gen.Pstoremgr.f_Manager_ImportPeersFromPeerstore = Expected.Pstoremgr.f_Manager_ImportPeersFromPeerstore := rfl
+theorem gen_source_Pstoremgr_f_Manager_LoadPeerstore : Gen.Pstoremgr.f_Manager_LoadPeerstore = Expected.Pstoremgr.f_Manager_LoadPeerstore := rfl
+theorem gen_source_Pstoremgr_f_Manager_SavePeerstore : Gen.Pstoremgr.f_Manager_SavePeerstore = Expected.Pstoremgr.f_Manager_SavePeerstore := rfl
+theorem gen_source_Pstoremgr_f_Manager_SavePeerstoreForPeers : Gen.Pstoremgr.f_Manager_SavePeerstoreForPeers = Expected.Pstoremgr.f_Manager_SavePeerstoreForPeers := rfl
+theorem gen_source_Pstoremgr_f_Manager_Bootstrap : Gen.Pstoremgr.f_Manager_Bootstrap = Expected.Pstoremgr.f_Manager_Bootstrap := rfl
+theorem gen_source_Pstoremgr_f_Manager_SetPriority : Gen.Pstoremgr.f_Manager_SetPriority = Expected.Pstoremgr.f_Manager_SetPriority := rfl
+theorem gen_source_Pstoremgr_f_Manager_HandlePeerFound : Gen.Pstoremgr.f_Manager_HandlePeerFound = Expected.Pstoremgr.f_Manager_HandlePeerFound := rfl
+theorem gen_source_Pstoremgr_f_peerSort_Len : Gen.Pstoremgr.f_peerSort_Len = Expected.Pstoremgr.f_peerSort_Len := rfl
+theorem gen_source_Pstoremgr_f_peerSort_Less : Gen.Pstoremgr.f_peerSort_Less = Expected.Pstoremgr.f_peerSort_Less := rfl
+theorem gen_source_Pstoremgr_f_peerSort_Swap : Gen.Pstoremgr.f_peerSort_Swap = Expected.Pstoremgr.f_peerSort_Swap := rfl
+theorem gen_source_Pstoremgr_f_byString_Len : Gen.Pstoremgr.f_byString_Len = Expected.Pstoremgr.f_byString_Len := rfl
+theorem gen_source_Pstoremgr_f_byString_Swap : Gen.Pstoremgr.f_byString_Swap = Expected.Pstoremgr.f_byString_Swap := rfl
+theorem gen_source_Pstoremgr_f_byString_Less : Gen.Pstoremgr.f_byString_Less = Expected.Pstoremgr.f_byString_Less := rfl
+theorem gen_source_Cmdutils_f_NewStateManager : Gen.Cmdutils.f_NewStateManager = Expected.Cmdutils.f_NewStateManager := rfl
+theorem gen_source_Cmdutils_f_NewStateManagerWithHelper : Gen.Cmdutils.f_NewStateManagerWithHelper = Expected.Cmdutils.f_NewStateManagerWithHelper := rfl
+theorem gen_source_Cmdutils_f_raftStateManager_GetStore : Gen.Cmdutils.f_raftStateManager_GetStore = Expected.Cmdutils.f_raftStateManager_GetStore := rfl
+theorem gen_source_Cmdutils_f_raftStateManager_GetOfflineState : Gen.Cmdutils.f_raftStateManager_GetOfflineState = Expected.Cmdutils.f_raftStateManager_GetOfflineState := rfl
+theorem gen_source_Cmdutils_f_raftStateManager_ImportState : Gen.Cmdutils.f_raftStateManager_ImportState = Expected.Cmdutils.f_raftStateManager_ImportState := rfl
+theorem gen_source_Cmdutils_f_raftStateManager_ExportState : Gen.Cmdutils.f_raftStateManager_ExportState = Expected.Cmdutils.f_raftStateManager_ExportState := rfl
+theorem gen_source_Cmdutils_f_raftStateManager_Clean : Gen.Cmdutils.f_raftStateManager_Clean = Expected.Cmdutils.f_raftStateManager_Clean := rfl
+theorem gen_source_Cmdutils_f_crdtStateManager_GetStore : Gen.Cmdutils.f_crdtStateManager_GetStore = Expected.Cmdutils.f_crdtStateManager_GetStore := rfl
+theorem gen_source_Cmdutils_f_crdtStateManager_GetOfflineState : Gen.Cmdutils.f_crdtStateManager_GetOfflineState = Expected.Cmdutils.f_crdtStateManager_GetOfflineState := rfl
+theorem gen_source_Cmdutils_f_crdtStateManager_ImportState : Gen.Cmdutils.f_crdtStateManager_ImportState = Expected.Cmdutils.f_crdtStateManager_ImportState := rfl
+theorem gen_source_Cmdutils_f_crdtStateManager_ExportState : Gen.Cmdutils.f_crdtStateManager_ExportState = Expected.Cmdutils.f_crdtStateManager_ExportState := rfl
+theorem gen_source_Cmdutils_f_crdtStateManager_Clean : Gen.Cmdutils.f_crdtStateManager_Clean = Expected.Cmdutils.f_crdtStateManager_Clean := rfl
+theorem gen_source_Cmdutils_f_importState : Gen.Cmdutils.f_importState = Expected.Cmdutils.f_importState := rfl
+theorem gen_source_Cmdutils_f_exportState : Gen.Cmdutils.f_exportState = Expected.Cmdutils.f_exportState := rfl
+
 
 end CV.C14
